@@ -452,50 +452,57 @@ def mac_case(p, res):
 
     class Con(BaseConstraint):
         def forward(self, x, *a, **k):
-            log.append(("con", float(x.reshape(-1)[0])))
+            log.append(("con", x.detach().clone()))
             return x * 2.0
 
     class Ch(BaseChannel):
         def forward(self, x, *a, **k):
-            log.append(("ch", float(x.reshape(-1)[0])))
+            log.append(("ch", x.detach().clone()))
             return x + 0.5
-    xs = [torch.tensor([float(10 ** i)], dtype=torch.float64) for i in range(U)]
     configs = [("class", None), ("shared", None)] + [("list", assign) for assign in product([0, 1], repeat=U)]
-    for ekind, assign in configs:
-        for dkind in ("joint", "separate"):
-            cfg = f"users={U},enc={ekind}{'' if assign is None else ''.join(map(str, assign))},dec={dkind}"
-            pool = [Enc(0), Enc(1)]
-            if ekind == "class":
-                encs, gains = Enc, [3.0] * U
-            elif ekind == "shared":
-                encs, gains = pool[0], [3.0] * U
-            else:
-                encs, gains = [pool[a] for a in assign], [3.0 if a == 0 else 5.0 for a in assign]
-            decs = Dec() if dkind == "joint" else [Dec(i) for i in range(U)]
-            try:
-                m = MultipleAccessChannelModel(encoders=encs, decoders=decs, channel=Ch(), power_constraint=Con(), num_devices=U)
-                del log[:]
-                out = m(list(xs))
-            except Exception as e:  # noqa: BLE001
-                if dkind == "separate" and U == 1:
-                    res.rejected += 1   # a one-element decoder list is by definition the joint decoder
+    # message layouts (batch, message_dim...): every (user, sample, coordinate) carries its own value, so a row or user mix-up changes the sum
+    shapes = [(1,), (1, 1), (2, 1), (3, 2), (2, 2, 2)] + ([(5, 3)] if p["tier"] != "quick" else [])
+    for shape in shapes:
+        numel = 1
+        for s_ in shape:
+            numel *= s_
+        xs = [(float(10 ** i) * (1.0 + torch.arange(numel, dtype=torch.float64) * 0.125 * (i + 1))).reshape(shape) for i in range(U)]
+        for ekind, assign in configs:
+            for dkind in ("joint", "separate"):
+                cfg = f"users={U},enc={ekind}{'' if assign is None else ''.join(map(str, assign))},dec={dkind}" + ("" if shape == (1,) else f",shape={'x'.join(map(str, shape))}")
+                pool = [Enc(0), Enc(1)]
+                if ekind == "class":
+                    encs, gains = Enc, [3.0] * U
+                elif ekind == "shared":
+                    encs, gains = pool[0], [3.0] * U
+                else:
+                    encs, gains = [pool[a] for a in assign], [3.0 if a == 0 else 5.0 for a in assign]
+                decs = Dec() if dkind == "joint" else [Dec(i) for i in range(U)]
+                try:
+                    m = MultipleAccessChannelModel(encoders=encs, decoders=decs, channel=Ch(), power_constraint=Con(), num_devices=U)
+                    del log[:]
+                    out = m(list(xs))
+                except Exception as e:  # noqa: BLE001
+                    if dkind == "separate" and U == 1:
+                        res.rejected += 1   # a one-element decoder list is by definition the joint decoder
+                        continue
+                    res.viol("mac", cfg, "raises", f"{type(e).__name__}: {str(e)[:200]}")
                     continue
-                res.viol("mac", cfg, "raises", f"{type(e).__name__}: {str(e)[:200]}")
-                continue
-            res.ev(1, nontrivial=1 if U > 1 else 0, transitions=1)
-            total = sum(g * float(x) for g, x in zip(gains, xs))
-            kinds = [e[0] for e in log]
-            ndec = 1 if (dkind == "joint" or U == 1) else U
-            if kinds != ["enc"] * U + ["con", "ch"] + ["dec"] * ndec:
-                res.viol("mac", cfg, "order", f"stages ran {kinds}")
-                continue
-            con_in = [e for e in log if e[0] == "con"][0][1]
-            ch_in = [e for e in log if e[0] == "ch"][0][1]
-            if abs(con_in - total) > 1e-9 * total:
-                used = [e[1] for e in log if e[0] == "enc"]
-                res.viol("mac", cfg, "superposition", f"constraint received {con_in}, the sum of every user's own encoder output is {total} (encoders used: {used}, assignment {assign})", {"assign": assign})
-            elif abs(ch_in - 2 * con_in) > 1e-9 * total:
-                res.viol("mac", cfg, "order", f"channel received {ch_in}, expected constraint output {2 * con_in}")
+                res.ev(1, nontrivial=1 if U > 1 else 0, transitions=1)
+                total = sum(g * x for g, x in zip(gains, xs))
+                kinds = [e[0] for e in log]
+                ndec = 1 if (dkind == "joint" or U == 1) else U
+                if kinds != ["enc"] * U + ["con", "ch"] + ["dec"] * ndec:
+                    res.viol("mac", cfg, "order", f"stages ran {kinds}")
+                    continue
+                con_in = [e for e in log if e[0] == "con"][0][1]
+                ch_in = [e for e in log if e[0] == "ch"][0][1]
+                if tuple(con_in.shape) != tuple(total.shape) or not torch.allclose(con_in, total, rtol=1e-9, atol=0):
+                    used = [e[1] for e in log if e[0] == "enc"]
+                    res.viol("mac", cfg, "superposition", f"constraint received {con_in.reshape(-1).tolist()[:8]} (shape {tuple(con_in.shape)}), the sum of every user's own encoder output is "
+                             f"{total.reshape(-1).tolist()[:8]} (encoders used: {used}, assignment {assign})", {"assign": assign, "shape": list(shape)})
+                elif not torch.allclose(ch_in, 2 * con_in, rtol=1e-9, atol=0):
+                    res.viol("mac", cfg, "order", f"channel received {ch_in.reshape(-1).tolist()[:8]}, expected constraint output {(2 * con_in).reshape(-1).tolist()[:8]}")
     res.sample({"users": U, "encoder_configs": len(configs)})
 
 
